@@ -1,4 +1,5 @@
 import GohtVerif.Model.Exec
+import GohtVerif.Proofs.C02
 /-! # C14 — output whitespace follows template layout and the whitespace-removal markers -/
 namespace GL.C14
 
@@ -229,6 +230,34 @@ theorem erase_step_nukeBefore (a ws t : GoStr) (ha : CleanPre a (ws ++ (Gen.Nuke
 /-- the hypotheses are met by a real buffer: `<p>` marker blank line-break `x</p>` -/
 example : CleanPre [60, 112, 62] (Gen.NukeAfter ++ ([32, 10] ++ [120, 60, 47, 112, 62])) ∧ MarkerFree [120, 60, 47, 112, 62] := by
   simp [CleanPre, MarkerFree, clean1, Gen.NukeAfter, Gen.NukeBefore, List.isPrefixOf, isWS]
+
+theorem markerFree_of_no_angle (s : GoStr) (h : ∀ c ∈ s, c ≠ 60 ∧ c ≠ 62) : MarkerFree s := by
+  induction s with
+  | nil => trivial
+  | cons b rest ih =>
+    refine ⟨?_, ih (fun c hc => h c (by simp [hc]))⟩
+    simp only [clean1, Bool.and_eq_true, Bool.not_eq_true']
+    constructor
+    · cases hp : Gen.NukeAfter.isPrefixOf (b :: rest) with
+      | false => rfl
+      | true =>
+        have hpre := List.isPrefixOf_iff_prefix.mp hp
+        have : (60 : UInt8) ∈ b :: rest := hpre.subset (by simp [Gen.NukeAfter])
+        exact absurd rfl (h 60 this).1
+    · cases hp : Gen.NukeBefore.isPrefixOf ((b :: rest).dropWhile isWS) with
+      | false => rfl
+      | true =>
+        have hpre := List.isPrefixOf_iff_prefix.mp hp
+        have h1 : (62 : UInt8) ∈ (b :: rest).dropWhile isWS := hpre.subset (by simp [Gen.NukeBefore])
+        have : (62 : UInt8) ∈ b :: rest := (List.dropWhile_sublist isWS).subset h1
+        exact absurd rfl (h 62 this).2
+
+/-- **An escaped value cannot hold a marker** — whatever the dynamic value, its escaped form contains
+neither `<` nor `>` and so no marker sequence: on its own it passes the eraser unchanged. (What the
+recorded finding is about is a value whose *end* completes a marker with the text that follows it.) -/
+theorem escaped_value_survives_eraser (v : GoStr) : erase (htmlEscape v) = htmlEscape v :=
+  erase_markerFree _ (markerFree_of_no_angle _ (fun c hc =>
+    let h := GL.C02.htmlEscape_no_meta v c hc; ⟨h.1, h.2.1⟩))
 
 /-- the constants the eraser is built from, as extracted from runtime.go on this run -/
 theorem extracted_markers :
